@@ -82,6 +82,9 @@ def write(directory, seed, delta=None, start=0):
         f.write('request_id,o_lat,o_lon,d_lat,d_lon,departure_time,passengers' + (',fleet_id' if fleets else '') + '\n')
         for r in reqs:
             r = r[:5] + (r[5] + start,) + r[6:]
+            # in a world with fleets some requests name no fleet (open to all of them).  Own stream.
+            if fleets and random.Random(f'public-request|{seed}|{r[0]}').random() < 0.2:
+                r = r[:7] + ('',)
             f.write(','.join(str(x) for x in r[:7]) + (f',{r[7]}' if fleets else '') + '\n')
     import h3
     with open(os.path.join(directory, 'prices.csv'), 'w') as f:
